@@ -126,6 +126,25 @@ func observe(rec *counting) Obs {
 	return Obs{Wh: rec.wh, Code: res.StatusCode, Hdr: h, Body: body}
 }
 
+// the files served by the "file" op, created once per process
+var (
+	fileDirOnce sync.Once
+	fileDir     string
+)
+
+func filePath(name string) string {
+	fileDirOnce.Do(func() {
+		fileDir, _ = os.MkdirTemp("", "c13files")
+		_ = os.WriteFile(fileDir+"/f.html", []byte("<p>f</p>"), 0o644)
+		_ = os.WriteFile(fileDir+"/f.json", []byte("{\"f\":1}"), 0o644)
+		_ = os.WriteFile(fileDir+"/f.zzz", []byte("zz"), 0o644)
+	})
+	if name == "" {
+		return fileDir
+	}
+	return fileDir + "/" + name
+}
+
 var tsRe = regexp.MustCompile(`"timestamp":\d+`)
 
 func q(s string) string { return strconv.Quote(s) }
@@ -192,6 +211,20 @@ func opsScript(sb *strings.Builder, v string, ops [][]any) {
 			// with the server's onFormat closure throwing for the message "boom": the formatted
 			// call fails before anything is written and must leave the response untouched
 			fmt.Fprintf(sb, "try { %s->%s; %s->write(\"NOTREFUSED\"); } catch (\\Throwable $e) { }\n", v, str(op[1]), v)
+		case "file":
+			// $w->file(path[, downloadName]): Content-Type by extension, Content-Disposition, then the content
+			if str(op[2]) == "" {
+				fmt.Fprintf(sb, "%s->file(%s);\n", v, q(filePath("f."+str(op[1]))))
+			} else {
+				fmt.Fprintf(sb, "%s->file(%s, %s);\n", v, q(filePath("f."+str(op[1]))), q(str(op[2])))
+			}
+		case "filemissing":
+			// a path that does not exist / is a directory: refused before anything is set
+			target := filePath("nosuch.bin")
+			if str(op[1]) == "dir" {
+				target = filePath("")
+			}
+			fmt.Fprintf(sb, "try { %s->file(%s); %s->write(\"NOTREFUSED\"); } catch (\\Throwable $e) { }\n", v, q(target), v)
 		case "badstatus":
 			// an out-of-range status code must be refused with a catchable error and have no effect
 			fmt.Fprintf(sb, "try { %s->%s(%d); %s->write(\"NOTREFUSED\"); } catch (\\Throwable $e) { }\n", v, str(op[1]), num(op[2]), v)
@@ -550,6 +583,11 @@ var _ = sort.Strings
 
 func main() {
 	enc := json.NewEncoder(os.Stdout)
+	defer func() {
+		if fileDir != "" {
+			os.RemoveAll(fileDir)
+		}
+	}()
 	vrun.Lines(func(line string) {
 		var c Case
 		if err := json.Unmarshal([]byte(line), &c); err != nil {
